@@ -47,15 +47,16 @@ def validate_trace(ctx, trace, timeout):
         if ev["e"] == "load":
             if r["why"] == "bad-input":
                 raise vlib.Inconclusive("harness generated a malformed taxonomy (event %d)" % r["l"])
-            ctx.violation("C14.trace.load", load.get("shape", ""),
+            ctx.violation("C14.trace.load", "load",
                           "loading a %d-node taxonomy: %s loaded=%s err=%s" %
                           (len(load["parent"]), r["why"], load["loaded"], load["err"]),
                           {"kind": "trace", "load": tdef, "queries": []})
             continue
         small = tdef if len(load["parent"]) <= 40 else "(%d nodes, see replay file)" % len(load["parent"])
-        ctx.violation("C14.trace.%s" % ev["op"], "%s/%s" % (ev["src"], load.get("shape", "")),
-                      "TaxTrace rejects (%s) %s a=%s b=%s k=%s in=%s sets=%s -> res=%s s=%s err=%s on %s" %
-                      (r["why"], ev["op"], ev["a"], ev["b"], ev["k"], ev["in"], ev["sets"], ev["res"], ev["s"],
+        what = "resolve" if r["why"] == "unresolved" else ev["op"]
+        ctx.violation("C14.trace.%s" % what, ev["src"],
+                      "TaxTrace rejects (%s) on a %s tree: %s a=%s b=%s k=%s in=%s sets=%s -> res=%s s=%s err=%s on %s" %
+                      (r["why"], load.get("shape", ""), ev["op"], ev["a"], ev["b"], ev["k"], ev["in"], ev["sets"], ev["res"], ev["s"],
                        ev["err"][:300], small),
                       {"kind": "trace", "load": tdef, "queries": [ev]})
     return events, nload
@@ -116,16 +117,23 @@ def main(ctx):
     for need in ("shape.chain", "shape.star", "shape.fork", "shape.bushy", "cases.root_not_1", "cases.cmd",
                  "api.lca", "dump.lca", "api.path", "dump.path", "api.clade", "dump.clade", "api.atrank", "dump.atrank",
                  "api.resolve", "dump.resolve", "api.seq_lca", "dump.seq_lca_worker", "api.seq_restrict",
-                 "dump.seq_atrank", "cmd.cmd_grep", "cmd.cmd_atrank", "cmd.cmd_lca"):
+                 "dump.seq_atrank", "cmd.cmd_grep", "cmd.cmd_atrank", "cmd.cmd_lca",
+                 "scn.lca_same_taxon", "scn.lca_ancestor_and_descendant", "scn.lca_unequal_depths", "scn.lca_equal_depths",
+                 "scn.lca_through_alias", "scn.lca_with_root", "scn.atrank_none", "scn.atrank_self", "scn.atrank_is_root",
+                 "scn.atrank_inner_ancestor", "scn.resolve_unknown_id", "scn.resolve_merged_id"):
         ctx.expect_vacuity("class " + need, ctx.classes.get(need, 0))
+    ctx.extra["transient_binary_crashes_repeated_ok"] = ctx.classes.get("cmd.transient_crash_repeated_ok", 0)
+    if ctx.extra["transient_binary_crashes_repeated_ok"]:
+        vlib.log("note: %d binary run(s) crashed once and succeeded when repeated (see samples in the evidence)"
+                 % ctx.extra["transient_binary_crashes_repeated_ok"])
     ctx.extra["comparisons_with_model_tables"] = sum(v for k, v in ctx.classes.items()
                                                      if k.split(".")[0] in ("api", "dump", "cmd"))
 
     # T ---------------------------------------------------------------------------------------
     trace = ctx.path("trace.ndjson")
-    ntrees = 160 if thorough else 36
+    ntrees = 160 if thorough else 30
     ctx.harness(["record", "C14", "--out", trace, "--n", ntrees, "--opt", "bindir=" + bindir,
-                 "--opt", "queries=%d" % (500 if thorough else 300), "--opt", "maxn=5000",
+                 "--opt", "queries=%d" % (500 if thorough else 240), "--opt", "maxn=5000",
                  "--opt", "cmdtrees=%d" % (24 if thorough else 6)], timeout=1500)
     events, nload = validate_trace(ctx, trace, 3000)
     ops = {}
